@@ -178,7 +178,27 @@ def _(f, a):
     return f.assign.iloc[:, :](sub * 1 if False else sub)
 
 
-@op('assign_bloc_elem', lambda rng, s: [rng.choice(['isna', 'notna', 'pattern']), rng.choice(FILLS), rng.randint(0, 2 ** 20)])
+def _key_frame(f, bits, layout=None):
+    """a Boolean Frame with f's labels (cell pattern from `bits`), stored under its OWN block layout when one is given"""
+    import static_frame as sf
+    n, m = f.shape
+    arr = np.array([[(bits >> ((i * m + j) % 20)) & 1 for j in range(m)] for i in range(n)], dtype=bool).reshape(f.shape)
+    if not layout or m == 0:
+        return sf.Frame(arr, index=f.index, columns=f.columns)
+    blocks, j = [], 0
+    for w, is2d in layout:
+        blk = arr[:, j:j + w].copy() if (is2d or w > 1) else arr[:, j].copy()
+        blk.flags.writeable = False
+        blocks.append(blk)
+        j += w
+    return sf.Frame(sf.TypeBlocks.from_blocks(blocks), index=f.index, columns=f.columns, own_data=True)
+
+
+def _bool_layout(rng, s):
+    return gen.rand_layout(rng, ['bool'] * len(s['cols'])) if rng.random() < 0.6 else None
+
+
+@op('assign_bloc_elem', lambda rng, s: [rng.choice(['isna', 'notna', 'pattern']), rng.choice(FILLS), rng.randint(0, 2 ** 20), _bool_layout(rng, s)])
 def _(f, a):
     import static_frame as sf
     if a[0] == 'isna':
@@ -186,22 +206,18 @@ def _(f, a):
     elif a[0] == 'notna':
         key = f.notna()
     else:
-        bits = a[2]
-        arr = np.array([[(bits >> ((i * f.shape[1] + j) % 20)) & 1 for j in range(f.shape[1])] for i in range(f.shape[0])], dtype=bool).reshape(f.shape)
-        key = sf.Frame(arr, index=f.index, columns=f.columns)
+        key = _key_frame(f, a[2], a[3] if len(a) > 3 else None)
     return f.assign.bloc[key](_fill(a[1]))
 
 
-@op('assign_bloc_series', lambda rng, s: [rng.choice(['pattern', 'pattern', 'notna']), rng.choice(['series', 'apply']), rng.randint(0, 2 ** 20)])
+@op('assign_bloc_series', lambda rng, s: [rng.choice(['pattern', 'pattern', 'notna']), rng.choice(['series', 'apply']), rng.randint(0, 2 ** 20), _bool_layout(rng, s)])
 def _(f, a):
     # the coordinate form of bloc assignment: a Series labelled by (row label, column label), given or produced by apply
     import static_frame as sf
     if a[0] == 'notna':
         key = f.notna()
     else:
-        bits = a[2]
-        arr = np.array([[(bits >> ((i * f.shape[1] + j) % 20)) & 1 for j in range(f.shape[1])] for i in range(f.shape[0])], dtype=bool).reshape(f.shape)
-        key = sf.Frame(arr, index=f.index, columns=f.columns)
+        key = _key_frame(f, a[2], a[3] if len(a) > 3 else None)
     rl, cl = list(f.index), list(f.columns)
     code = lambda lab: 1000 + 10 * rl.index(lab[0]) + cl.index(lab[1])
     if a[1] == 'apply':
@@ -210,12 +226,9 @@ def _(f, a):
     return f.assign.bloc[key](sf.Series([code(l) for l in sel.index], index=sel.index))
 
 
-@op('bloc', lambda rng, s: [rng.randint(0, 2 ** 20)])
+@op('bloc', lambda rng, s: [rng.randint(0, 2 ** 20), _bool_layout(rng, s)])
 def _(f, a):
-    import static_frame as sf
-    bits = a[0]
-    arr = np.array([[(bits >> ((i * f.shape[1] + j) % 20)) & 1 for j in range(f.shape[1])] for i in range(f.shape[0])], dtype=bool).reshape(f.shape)
-    key = sf.Frame(arr, index=f.index, columns=f.columns)
+    key = _key_frame(f, a[0], a[1] if len(a) > 1 else None)
     return f.bloc[key]
 
 
